@@ -6,9 +6,9 @@ EXTENDS Composite, Json
 CONSTANTS HLMaxLen, SpLen, ValSet, Kinds, RampLens, ShiftHalves
 ElemDef == ValSet \cup {NULL}
 
-VARIABLES kind, s, t, mp, len, above, pc, n, last_n, i
+VARIABLES kind, s, t, mp, len, above, pc, n, last_n, i, pw
 hl == INSTANCE HalfLife WITH MaxLen <- HLMaxLen
-vars == <<kind, s, t, mp, len, above, pc, n, last_n, i>>
+vars == <<kind, s, t, mp, len, above, pc, n, last_n, i, pw>>
 HLKinds == {"half_life", "half_life_ramp", "half_life_shift"}
 
 Init ==
@@ -43,12 +43,13 @@ Init ==
                               up \in SUBSET tieset}
                  ELSE {[k \in 1..(Len(s) - 1) |-> FALSE]}
     /\ pc = IF kind \in HLKinds /\ Len(s) > 0 THEN "dbl" ELSE "done"
-    /\ n = 0 /\ last_n = 0 /\ i = 0
+    /\ n = 0 /\ last_n = 0 /\ i = 0 /\ pw = 1
 
 Next == hl!Next /\ UNCHANGED <<kind, s, t, mp>>
 Spec == Init /\ [][Next]_vars /\ WF_vars(Next)
 
 NoUnderflow == hl!NoUnderflow
+PwIsPow     == hl!PwIsPow
 InRange     == kind \in HLKinds => hl!InRange
 ResultLaw   == kind \in HLKinds => hl!ResultLaw
 Terminates  == hl!Terminates
